@@ -350,13 +350,17 @@ class AppNamespace(object):
 
     def _summarize_nameplate_usage(self, side_rows, delete_time, pruned):
         times = sorted([row["added"] for row in side_rows])
-        started = times[0]
+        # a nameplate or mailbox can be left without any side row (the
+        # server died between two commits): it still must be summarized
+        # and deleted, or every later prune would fail on it
+        first = times[0] if times else delete_time
+        started = first
         if self._blur_usage:
             started = self._blur_usage * (started // self._blur_usage)
         waiting_time = None
         if len(times) > 1:
             waiting_time = times[1] - times[0]
-        total_time = delete_time - times[0]
+        total_time = delete_time - first
         result = "lonely"
         if len(times) == 2:
             result = "happy"
@@ -431,13 +435,14 @@ class AppNamespace(object):
 
     def _summarize_mailbox(self, side_rows, delete_time, pruned):
         times = sorted([row["added"] for row in side_rows])
-        started = times[0]
+        first = times[0] if times else delete_time # see above
+        started = first
         if self._blur_usage:
             started = self._blur_usage * (started // self._blur_usage)
         waiting_time = None
         if len(times) > 1:
             waiting_time = times[1] - times[0]
-        total_time = delete_time - times[0]
+        total_time = delete_time - first
 
         num_sides = len(times)
         if num_sides == 0:
